@@ -52,6 +52,7 @@ def strategy(tier):
         "reads": st.lists(st.tuples(st.integers(0, 40), st.integers(0, 20), st.integers(1, 9)), min_size=3, max_size=12).map(lambda l: [list(x) for x in l]),
         "follow": st.lists(st.tuples(st.integers(0, 15), st.integers(1, 4), st.booleans()), max_size=5).map(lambda l: [list(x) for x in l]),
         "other": st.lists(st.integers(0, 15), max_size=5),
+        "zero_before_clear": st.sampled_from([0, 0, 1]),
     })
     base = st.one_of(
         bloom.case_strategy(tier, max_ops=20).map(tag("bloom")),
@@ -394,6 +395,12 @@ def run_case(case, ctx):
         if t.clear is not None:
             fresh, view, follow, fin = t.clear
             o = t.obj
+            if case.get("zero_before_clear") and t.kind in ("bloom", "ondisk", "counting") and hasattr(type(o), "elements_added") \
+                    and getattr(type(o).elements_added, "fset", None) is not None:
+                # the documented settable element counter is assigned 0 first: counter 0 with cells set is a reachable state (it
+                # is also what a sparse intersection result or a second handle on a backing file has) - clear() must still clear
+                o.elements_added = 0
+                ctx.feat("clear_with_zero_counter_and_cells_set" if t.nonempty else "clear_with_zero_counter")
             ctx.call(NX, o.clear)
             f = ctx.call(NX, fresh)
             try:
